@@ -72,16 +72,20 @@ pub fn gen_large_block_case(seed: u64) -> Case {
     }
     let mut s1 = vec![("A#1#sat".to_string(), sat)];
     let mut s2 = vec![];
-    for i in 0..24 {
-        let blen = rng.range(1500, 4000) as usize;
-        let base = genomes::random_seq(&mut rng, blen);
-        let mut v = base.clone();
-        for _ in 0..rng.range(1, 3) {
-            let a = rng.below((base.len() - 200) as u64) as usize;
-            let l = rng.range(64, 200) as usize;
-            let ins = base[a..a + l].to_vec();
-            let at = rng.below(v.len() as u64) as usize;
-            v.splice(at..at, ins);
+    for i in 0..16 {
+        // unique flank + three times (6 diverged tandem copies of a 1.6 / 2 / 2.4 kb unit + unique)
+        let mut v = genomes::random_seq(&mut rng, 3000);
+        for unit_len in [1600usize, 2000, 2400] {
+            let unit = genomes::random_seq(&mut rng, unit_len);
+            for _ in 0..6 {
+                let mut c = unit.clone();
+                for _ in 0..4 {
+                    let p = rng.below(unit_len as u64) as usize;
+                    c[p] = b"ACGT"[rng.below(4) as usize];
+                }
+                v.extend_from_slice(&c);
+            }
+            v.extend(genomes::random_seq(&mut rng, 3000));
         }
         s1.push((format!("A#1#c{i}"), v.clone()));
         let mut w = v;
